@@ -20,9 +20,9 @@ the RFC grammar, independent of the (lenient) reply decoder of `Netconf/Decode.l
 namespace Scrapli.Netconf.Req
 open Scrapli Scrapli.Netconf
 
-def LT : UInt8 := 60
-def GT : UInt8 := 62
-def SLASH : UInt8 := 47
+def LTc : UInt8 := 60
+def GTc : UInt8 := 62
+def SLc : UInt8 := 47
 
 /-! ## ForceSelfClosingTags
 
@@ -47,7 +47,7 @@ def isWordDash (b : UInt8) : Bool :=
 /-- the text after `<` up to the first `>` (exclusive), and what follows that `>` -/
 def spanTag : Bytes → Option (Bytes × Bytes)
   | [] => none
-  | b :: t => if b == GT then some ([], t) else (spanTag t).map fun (x, r) => (b :: x, r)
+  | b :: t => if b == GTc then some ([], t) else (spanTag t).map fun (x, r) => (b :: x, r)
 
 /-- Split the tag text into (group 1, group 2) the way `([^>/]+?)(\s+[^>]+?)?` followed by `>`
 does: the shortest non-empty `/`-free prefix such that the remainder is empty, or is one
@@ -55,7 +55,7 @@ whitespace byte followed by at least one more byte. -/
 def splitTag : Bytes → Option (Bytes × Bytes)
   | [] => none
   | b :: t =>
-    if b == SLASH then none
+    if b == SLc then none
     else match t with
       | [] => some ([b], [])
       | c :: t' =>
@@ -78,10 +78,10 @@ def matchAt (s : Bytes) : Option Match :=
   | some (tag, r1) =>
     match r1.dropWhile isWs with
     | a :: b :: r2 =>
-      if a == LT && b == SLASH then
+      if a == LTc && b == SLc then
         match r2.takeWhile isWordDash, r2.dropWhile isWordDash with
         | c :: cn, g :: rest =>
-          if g == GT then
+          if g == GTc then
             (splitTag tag).map fun (n, a) => ⟨n, a, r1.takeWhile isWs, c :: cn, rest⟩
           else none
         | _, _ => none
@@ -90,13 +90,13 @@ def matchAt (s : Bytes) : Option Match :=
 
 /-- the bytes a match covers (including the leading `<`) -/
 def Match.full (m : Match) : Bytes :=
-  LT :: (m.name ++ m.attrs ++ GT :: (m.ws ++ LT :: SLASH :: (m.cname ++ [GT])))
+  LTc :: (m.name ++ m.attrs ++ GTc :: (m.ws ++ LTc :: SLc :: (m.cname ++ [GTc])))
 
 /-- what an eligible match is replaced with -/
-def Match.closed (m : Match) : Bytes := LT :: (m.name ++ m.attrs ++ [SLASH, GT])
+def Match.closed (m : Match) : Bytes := LTc :: (m.name ++ m.attrs ++ [SLc, GTc])
 
 /-- repaired eligibility test: names equal, and the opening tag is not already self-closed -/
-def Match.eligible (m : Match) : Bool := m.name == m.cname && m.attrs.getLast? != some SLASH
+def Match.eligible (m : Match) : Bool := m.name == m.cname && m.attrs.getLast? != some SLc
 
 /-- the eligibility test of the code as it is (names equal only) -/
 def Match.eligibleAsIs (m : Match) : Bool := m.name == m.cname
@@ -105,7 +105,7 @@ def scan (elig : Match → Bool) : Nat → Bytes → Bytes
   | 0, s => s
   | _, [] => []
   | f+1, b :: t =>
-    if b == LT then
+    if b == LTc then
       match matchAt t with
       | some m => (if elig m then m.closed else m.full) ++ scan elig f m.rest
       | none => b :: scan elig f t
@@ -124,8 +124,8 @@ structure EmptyElem (name attrs ws : Bytes) : Prop where
   name_ne : name ≠ []
   name_word : ∀ b ∈ name, isWordDash b = true
   attrs_shape : attrs = [] ∨ ∃ w r, attrs = w :: r ∧ isWs w = true ∧ r ≠ []
-  attrs_noGT : ∀ b ∈ attrs, b ≠ GT
-  attrs_open : attrs.getLast? ≠ some SLASH
+  attrs_noGT : ∀ b ∈ attrs, b ≠ GTc
+  attrs_open : attrs.getLast? ≠ some SLc
   ws_space : ∀ b ∈ ws, isWs b = true
 
 /-- `Rewrites s t`: `t` is `s` except that some occurrences of `<n a…>ws</n>` (same name `n`,
@@ -134,8 +134,8 @@ inductive Rewrites : Bytes → Bytes → Prop
   | nil : Rewrites [] []
   | keep (b : UInt8) {s t : Bytes} : Rewrites s t → Rewrites (b :: s) (b :: t)
   | close (name attrs ws : Bytes) {s t : Bytes} : EmptyElem name attrs ws → Rewrites s t →
-      Rewrites (LT :: (name ++ attrs ++ GT :: (ws ++ LT :: SLASH :: (name ++ GT :: s))))
-               (LT :: (name ++ attrs ++ SLASH :: GT :: t))
+      Rewrites (LTc :: (name ++ attrs ++ GTc :: (ws ++ LTc :: SLc :: (name ++ GTc :: s))))
+               (LTc :: (name ++ attrs ++ SLc :: GTc :: t))
 
 /-- executable checker for `Rewrites` (sound, see `checkRewrite_sound`): walks both strings; where
 they differ the input must carry an empty element and the output its closed form. -/
@@ -144,11 +144,11 @@ def checkRewrite : Nat → Bytes → Bytes → Bool
   | 0, _, _ => false
   | f+1, b :: s, c :: t =>
     (b == c && checkRewrite f s t) ||
-    (b == LT && c == LT &&
+    (b == LTc && c == LTc &&
       match matchAt s with
       | some m =>
-        m.eligible && hasPrefix t (m.name ++ m.attrs ++ [SLASH, GT]) &&
-          checkRewrite f m.rest (t.drop (m.name ++ m.attrs ++ [SLASH, GT]).length)
+        m.eligible && hasPrefix t (m.name ++ m.attrs ++ [SLc, GTc]) &&
+          checkRewrite f m.rest (t.drop (m.name ++ m.attrs ++ [SLc, GTc]).length)
       | none => false)
   | _+1, _, _ => false
 
@@ -193,7 +193,7 @@ def rpcClose : Bytes := [60,47,114,112,99,62]
 
 /-- the marshalled `message` struct: rpc element, base namespace, message-id, payload as innerxml -/
 def rpcBody (id : Nat) (inner : Bytes) : Bytes :=
-  rpcOpenPrefix ++ (decDigits id ++ 34 :: GT :: (inner ++ rpcClose))
+  rpcOpenPrefix ++ (decDigits id ++ 34 :: GTc :: (inner ++ rpcClose))
 
 /-- `buildPayload` uses `d.messageID` and increments it -/
 def sessionBodies : Nat → List Bytes → List Bytes
